@@ -22,7 +22,7 @@ def main():
         return 2
     m = json.load(open(os.path.join(HERE, "MANIFEST.json")))
     ids = sorted(c["property_id"] for c in m["checks"])
-    r = sh("git -C %s apply %s" % (REPO, os.path.join(d, "patch.diff")))
+    r = sh("git -C %s apply %s" % (REPO, os.path.abspath(os.path.join(d, "patch.diff"))))
     if r.returncode:
         print("patch does not apply:", r.stderr.strip())
         return 2
